@@ -77,7 +77,7 @@ struct prog { struct op* ops; int nops, cops; struct yield* ys; int nys, cys; lo
               int ngift, gkey[4]; long gid[4]; int g_ngc; long g_churn; int restart_of; /* -1 = no */ };
 
 enum { O_CN, O_CP, O_CR, O_CG, O_CS, O_CD, O_CC, O_CX, O_OB, O_CH, O_OW, O_OD, O_GC, O_EX,
-       O_TS, O_TG, O_TR, O_LK, O_JW, O_SB };
+       O_TS, O_TG, O_TR, O_LK, O_JW, O_SB, O_DA };
 
 struct jobspec { long len, seed, dkind, dcount, mid, nint, slen, nalloc; };
 struct giftrec { int tid; volatile int state; long id; };   /* never freed: the object may be finalised much later */
@@ -147,17 +147,21 @@ static volatile long g_counter[NMUT];
 static volatile int  g_flag[NMUT];
 static atomic_long   g_flagseen[NMUT];
 
+static void do_yield(int kind, long count);
+
 /* ---- instrumented object ---------------------------------------------------------------- */
-struct Obj { struct ledger* led; int64_t token; int64_t seq; var link; };
+struct Obj { struct ledger* led; int64_t token; int64_t seq; var link; int32_t gen, births; int64_t spin; };
 static var Obj;
+/* set while a destructor allocates: the born object goes into the dying object's ledger (its allocator's) */
+static __thread struct ledger* birth_led = NULL;
 
 static void Obj_New(var self, var args) {
   struct Obj* o = self;
   struct tctx* c = cur;
-  if (c is NULL) { harness_bug("Obj constructed outside a workload"); }
-  struct ledger* L = c->led;
+  struct ledger* L = birth_led ? birth_led : (c ? c->led : NULL);
+  if (L is NULL) { harness_bug("Obj constructed outside a workload"); }
   if (L->next >= L->cap) { harness_bug("ledger capacity"); }
-  o->led = L; o->token = L->next++; o->seq = ++c->seq; o->link = NULL;
+  o->led = L; o->token = L->next++; o->seq = (birth_led or c is NULL) ? 0 : ++c->seq; o->link = NULL;
   L->st[o->token] = 1;
 }
 static void Obj_Del(var self) {
@@ -169,6 +173,18 @@ static void Obj_Del(var self) {
   if (L->st[o->token] isnt 1) { L->dbl++; return; }
   L->st[o->token] = 2; L->fins++;
   if (cur and my_tid is L->tid) { ev_add(cur, EV_GC); }
+  /* a destructor that allocates: generation g gives birth to `births` objects of generation g+1 (g <= 1),
+   * registered with the collector of the thread that runs the destructor, left as garbage at once */
+  if (o->births > 0 and o->gen < 2 and my_tid is L->tid) {
+    struct ledger* saved = birth_led;
+    birth_led = L;
+    for (int b = 0; b < o->births; b++) {
+      struct Obj* ch = new(Obj);
+      ch->gen = o->gen + 1; ch->births = o->births; ch->spin = o->spin;
+      if (o->spin) { do_yield((int)(o->spin & 1), o->spin >> 1); }
+    }
+    birth_led = saved;
+  }
 }
 static var Obj = Cello(Obj, Instance(New, Obj_New, Obj_Del));
 
@@ -500,6 +516,15 @@ static void do_op(struct tctx* c, struct op* o) {
       mix(&c->dig, 0x10);
       break;
     }
+    case O_DA: {                              /* da mode n k spin slot: n objects whose destructor allocates k more (2 further generations) */
+      int s = NCONT + (int)a[4]; var prev = NULL;
+      for (long i = 0; i < a[1]; i++) {
+        struct Obj* ob = new(Obj);
+        ob->gen = 0; ob->births = (int32_t)a[2]; ob->spin = a[3];
+        if (a[0] is 1) { ob->link = prev; prev = ob; S[s] = ob; }      /* kept (until the slot is reused or the thread ends) */
+      }
+      break;
+    }
     case O_SB: {                              /* string building in a collected String */
       var s = new(String, $S("")); char kb[48];
       for (long i = 0; i < a[0]; i++) { mkstr(kb, a[1] + i); append(s, $S(kb)); }
@@ -659,7 +684,7 @@ static struct { const char* name; int code; int minargs; } optab[] = {
   {"cn", O_CN, 3}, {"cp", O_CP, 3}, {"cr", O_CR, 2}, {"cg", O_CG, 2}, {"cs", O_CS, 1}, {"cd", O_CD, 1},
   {"cc", O_CC, 2}, {"cx", O_CX, 1}, {"ob", O_OB, 2}, {"ch", O_CH, 1}, {"ow", O_OW, 1}, {"od", O_OD, 1},
   {"gc", O_GC, 0}, {"ex", O_EX, 1}, {"ts", O_TS, 2}, {"tg", O_TG, 1}, {"tr", O_TR, 1}, {"lk", O_LK, 4},
-  {"jw", O_JW, 8}, {"sb", O_SB, 2}, {NULL, 0, 0}
+  {"jw", O_JW, 8}, {"sb", O_SB, 2}, {"da", O_DA, 5}, {NULL, 0, 0}
 };
 
 static void parse_op(struct prog* p, char** w, int n) {
@@ -691,6 +716,9 @@ static void parse_op(struct prog* p, char** w, int n) {
       break;
     case O_JW: RANGE(o->a[0], 0, 4097); RANGE(o->a[5], 0, 1025); break;
     case O_SB: RANGE(o->a[0], 0, 200); break;
+    case O_DA: RANGE(o->a[0], 0, 2); RANGE(o->a[1], 0, 201); RANGE(o->a[2], 1, 4); RANGE(o->a[3], 0, 100000); RANGE(o->a[4], 0, NOBJ);
+      if (o->a[0] is 1 and o->a[1] > MAXCHAIN) { harness_bug("da chain too long"); }
+      p->nalloc += o->a[1] * (1 + o->a[2] + o->a[2] * o->a[2]); break;
     default: break;
   }
   #undef RANGE
@@ -734,6 +762,12 @@ static void check_ledger(struct tctx* c, const char* phase) {
   if (atomic_load(&L->foreign)) { tbad(c, "%s: %ld object(s) allocated by this thread were finalised on another thread", phase, (long)atomic_load(&L->foreign)); }
   if (L->dbl) { tbad(c, "%s: %ld object(s) finalised twice", phase, L->dbl); }
   if (L->garbage) { tbad(c, "%s: destructor saw a corrupted object", phase); }
+  /* the thread has been joined: its collector was torn down (repeated sweeps until nothing is left), so every
+   * object it allocated - also those born in destructors - has been finalised.  Not for a main-thread run. */
+  if (not c->is_main_run and L->fins isnt L->next - 1) {
+    tbad(c, "%s: %ld of %ld objects allocated by this thread (incl. those born in destructors) were never finalised when join returned",
+         phase, (L->next - 1) - L->fins, L->next - 1);
+  }
 }
 
 int main(int argc, char** argv) {
